@@ -11,9 +11,9 @@ if [ "$RES" = ok ]; then
   T=$(/venv/bin/python -m pytest -q -p no:cacheprovider --continue-on-collection-errors tests 2>&1 | tail -1)
   echo "tests with patch: $T"
   echo "$T" | grep -q "222 passed, 1 error" || RES="tests-changed"
-  PYTHONPATH=$WT timeout 120 /venv/bin/python $SRC/demo.py > /tmp/wt/demo_with.out 2>&1; RC1=$?
+  PYTHONPATH=$WT timeout 120 /venv/bin/python $SRC/demo.py > /tmp/wt/demo_with-$P-$K.out 2>&1; RC1=$?
   git checkout -q -- . 
-  PYTHONPATH=$WT timeout 120 /venv/bin/python $SRC/demo.py > /tmp/wt/demo_without.out 2>&1; RC0=$?
+  PYTHONPATH=$WT timeout 120 /venv/bin/python $SRC/demo.py > /tmp/wt/demo_without-$P-$K.out 2>&1; RC0=$?
   echo "demo rc with patch=$RC1 without=$RC0"
   [ $RC1 -ne 0 ] || RES="demo-passes-with-patch"
   [ $RC0 -eq 0 ] || RES="demo-fails-without-patch"
@@ -23,5 +23,5 @@ echo "RESULT $P/$K: $RES"
 if [ "$RES" = ok ]; then
   D=/verif/seeded/$P-$K; mkdir -p $D
   cp $SRC/patch.diff $SRC/demo.py $D/; cp $SRC/notes.md $D/notes.md 2>/dev/null
-  tail -3 /tmp/wt/demo_with.out > $D/demo_output_with_patch.txt
+  tail -3 /tmp/wt/demo_with-$P-$K.out > $D/demo_output_with_patch.txt
 fi
